@@ -66,7 +66,10 @@ const (
 
 var allEntries = []string{eLoadRender, eRenderFile, eVueRender, eVueFrag}
 
-const t0 = int64(100) // initial mtime (unix seconds) of every file
+// The model counts mtimes in nanoseconds since the Unix epoch (0 = the zero time).
+const sec = int64(1_000_000_000)
+
+const t0 = 100 * sec // initial mtime of every file
 
 // variant is one possible content of a file. The flags describe the content to the harness
 // model (dependency closure, classification); they are facts about the text, not about vuego.
@@ -160,8 +163,9 @@ type Op struct {
 	Dt     int    `json:"dt,omitempty"`
 	Entry  string `json:"entry,omitempty"`
 	Target string `json:"target,omitempty"`
-	Z      bool   `json:"z,omitempty"` // the write gives the file a ZERO mtime (time.Time{}: "no mtime", like embed.FS); Dt is ignored
-	D      int    `json:"d,omitempty"` // which data the render passes: 0..2 = {title "D<d>", x "X<d>"}, 3 = nil, 4 = empty map
+	Ns     int64  `json:"ns,omitempty"` // additional sub-second part of the mtime delta, in nanoseconds (may be negative)
+	Z      bool   `json:"z,omitempty"`  // the write gives the file a ZERO mtime (time.Time{}: "no mtime", like embed.FS); Dt is ignored
+	D      int    `json:"d,omitempty"`  // which data the render passes: 0..2 = {title "D<d>", x "X<d>"}, 3 = nil, 4 = empty map
 }
 
 // Case is an initial configuration (file -> variant; missing key = file absent; all mtimes t0)
@@ -185,7 +189,15 @@ func toTime(mt int64) time.Time {
 	if mt == 0 {
 		return time.Time{}
 	}
-	return time.Unix(mt, 0)
+	return time.Unix(0, mt)
+}
+
+// fmtMt prints a model mtime in seconds.
+func fmtMt(mt int64) string {
+	if mt%sec == 0 {
+		return fmt.Sprint(mt / sec)
+	}
+	return strings.TrimRight(fmt.Sprintf("%d.%09d", mt/sec, mt%sec), "0")
 }
 
 type memfsFS = memfs.FS
@@ -256,7 +268,7 @@ func describeFiles(fs *memfs.FS, m *model) string {
 		if m.st[n].blocked {
 			extra = ", unreadable: permission error"
 		}
-		fmt.Fprintf(&sb, "\n    %s (mtime %d%s): %q", n, m.st[n].mt, extra, files[n])
+		fmt.Fprintf(&sb, "\n    %s (mtime %s%s): %q", n, fmtMt(m.st[n].mt), extra, files[n])
 	}
 	if m.store == storeOverlayMixed {
 		sb.WriteString("\n    (these are the Open-only upper layer of an overlay; the lower layer holds variant 2 of page, component and main layout with mtime 50)")
@@ -577,6 +589,7 @@ type letter struct {
 	entry string
 	bad   bool
 	zero  bool
+	ns    int64
 }
 
 var alphabet = []letter{
@@ -611,7 +624,12 @@ var alphabetFS = append(append([]letter(nil), alphabet...),
 	letter{op: "block", file: fMain},
 	letter{op: "unblock", file: fMain},
 	letter{op: "edit", file: fPage, zero: true}, // the page stops reporting an mtime
-	letter{op: "edit", file: fRel, dt: 1},       // creates the page-relative layout when absent
+	// quick re-saves: the new version's mtime differs by less than a second
+	letter{op: "edit", file: fPage, ns: 1},
+	letter{op: "edit", file: fPage, ns: 300_000_000},
+	letter{op: "edit", file: fPage, ns: -50_000_000},
+	letter{op: "edit", file: fMain, ns: 999_000_000},
+	letter{op: "edit", file: fRel, dt: 1}, // creates the page-relative layout when absent
 	letter{op: "delete", file: fRel},
 )
 
@@ -662,7 +680,7 @@ func buildHistory(alpha []letter, init map[string]int, word []int, o engineOpt) 
 		case "arm":
 			v := nextOf(l.file, curV)
 			curV[l.file] = v
-			c.Ops = append(c.Ops, Op{Op: "arm", File: l.file, V: v, Dt: l.dt})
+			c.Ops = append(c.Ops, Op{Op: "arm", File: l.file, V: v, Dt: l.dt, Ns: l.ns})
 		case "render":
 			c.Ops = append(c.Ops, Op{Op: "render", Entry: l.entry, D: enumData[len(c.Ops)%len(enumData)]})
 		case "delete":
@@ -679,7 +697,7 @@ func buildHistory(alpha []letter, init map[string]int, word []int, o engineOpt) 
 				}
 			}
 			exists[l.file] = true
-			c.Ops = append(c.Ops, Op{Op: name, File: l.file, V: v, Dt: l.dt, Z: l.zero})
+			c.Ops = append(c.Ops, Op{Op: name, File: l.file, V: v, Dt: l.dt, Ns: l.ns, Z: l.zero})
 		}
 	}
 	return c
@@ -797,6 +815,10 @@ func genCase(t *rapid.T) Case {
 	// one write in eight leaves the file without an mtime (zero time)
 	zero := func() bool { return rapid.IntRange(0, 7).Draw(t, "no-mtime") == 0 }
 	dts := []int{1, 1, 1, 2, 0, 0, -1, -1, -2}
+	// the sub-second part of a write's mtime delta: mostly none, else +1 ns, +1 ms, +300 ms,
+	// +999 ms, -50 ms (with a whole-second part of 0 this is a quick re-save)
+	nss := []int64{0, 0, 0, 0, 0, 1, 1_000_000, 300_000_000, 999_000_000, -50_000_000}
+	subsec := func() int64 { return rapid.SampledFrom(nss).Draw(t, "ns") }
 	entriesW := []string{eVueRender, eVueRender, eVueRender, eVueRender, eLoadRender, eLoadRender, eRenderFile, eVueFrag}
 	broken := func() []string {
 		var out []string
@@ -858,13 +880,13 @@ func genCase(t *rapid.T) Case {
 				v = good[(indexOf(good, v)+1)%len(good)]
 			}
 			cur[f] = v
-			c.Ops = append(c.Ops, Op{Op: name, File: f, V: v, Dt: rapid.SampledFrom(dts).Draw(t, "dt"), Z: zero()})
+			c.Ops = append(c.Ops, Op{Op: name, File: f, V: v, Dt: rapid.SampledFrom(dts).Draw(t, "dt"), Ns: subsec(), Z: zero()})
 		case "arm":
 			// an edit that is applied right after the engine has been handed the file's content
 			// during the next render that depends on the file
 			f := rapid.SampledFrom(fileW).Draw(t, "file")
 			v := pick("v", variantsWhere(f, true))
-			c.Ops = append(c.Ops, Op{Op: "arm", File: f, V: v, Dt: rapid.SampledFrom([]int{1, 1, 2, -1}).Draw(t, "dt"), Z: zero()})
+			c.Ops = append(c.Ops, Op{Op: "arm", File: f, V: v, Dt: rapid.SampledFrom([]int{1, 1, 2, 0, -1}).Draw(t, "dt"), Ns: subsec(), Z: zero()})
 		case "block":
 			f := rapid.SampledFrom(fileW).Draw(t, "file")
 			blocked[f] = true
@@ -885,7 +907,7 @@ func genCase(t *rapid.T) Case {
 			}
 			v := pick("v", variantsWhere(f, false))
 			cur[f] = v
-			c.Ops = append(c.Ops, Op{Op: "invalid", File: f, V: v, Dt: rapid.SampledFrom(dts).Draw(t, "dt"), Z: zero()})
+			c.Ops = append(c.Ops, Op{Op: "invalid", File: f, V: v, Dt: rapid.SampledFrom(dts).Draw(t, "dt"), Ns: subsec(), Z: zero()})
 		default:
 			f := rapid.SampledFrom(fileW).Draw(t, "file")
 			cur[f] = -1
